@@ -422,6 +422,10 @@ def floatfunc(f):
     return h
 
 
+def small_term(t, limit=60):
+    return len(T.subterm_ids([t])) <= limit
+
+
 def _find_ite(t, depth=0):
     """an ite subterm reachable through arithmetic operators only"""
     if not z3.is_app(t) or depth > 6:
@@ -441,7 +445,7 @@ def s_exp(t):
     if is_num(t) and num(t) == 0:
         return rv(1)
     ctx = C()
-    it = _find_ite(t)
+    it = _find_ite(t) if small_term(t, 120) else None
     if it is not None and z3.is_real(it):
         c_, a_, b_ = it.children()
         ta = z3.simplify(z3.substitute(t, (it, a_)), som=True)
@@ -451,7 +455,7 @@ def s_exp(t):
     hit = ctx.memo.get(key)
     if hit is not None:
         return hit[1]
-    if not (z3.is_app(t) and t.decl().kind() == z3.Z3_OP_UNINTERPRETED):
+    if not (z3.is_app(t) and t.decl().kind() == z3.Z3_OP_UNINTERPRETED) and small_term(t, 120):
         ts = z3.simplify(t, som=True, push_ite_arith=True)
         if z3.is_app(ts) and ts.decl().kind() == z3.Z3_OP_ITE:
             c_, a_, b_ = ts.children()
@@ -468,6 +472,8 @@ def s_exp(t):
     ctx.memo[key] = (t, e)
     ctx.axiom([e], e > 0)
     try:
+        if not small_term(t):
+            raise Unsupported("large exponent")
         rest, numr, den = T.exp_of_loglin(z3.simplify(t, som=True))
         rs = z3.simplify(rest)
         if is_num(rs) and num(rs) == 0 and not (is_num(numr) and is_num(den)):
@@ -483,7 +489,8 @@ def s_exp(t):
         ctx.axiom([e], logf(e) == t)
     # exponent laws against the exponentials already present on this path (instances of exp(a+b) = exp(a) exp(b))
     exps = ctx.notes.setdefault("exps", [])
-    for s_, es in exps[-24:]:
+    small = len(T.subterm_ids([t])) <= 40
+    for s_, es in (exps[-24:] if small else []):
         try:
             tot = z3.simplify(s_ + t)
             if is_num(tot) and num(tot) == 0:
